@@ -67,7 +67,8 @@ func c18Multipart(fields url.Values) (string, *bytes.Buffer) {
 	return mw.FormDataContentType(), &buf
 }
 
-var c18CTypes = []string{"", "application/json", "application/json; charset=utf-8", "application/x-www-form-urlencoded", "application/x-www-form-urlencoded; charset=UTF-8",
+var c18CTypes = []string{"application/json; profile=\"https://example.com/schemas/xml\"", "text/xml; note=/json", "application/xml; v=\"/json\"",
+	"", "application/json", "application/json; charset=utf-8", "application/x-www-form-urlencoded", "application/x-www-form-urlencoded; charset=UTF-8",
 	"multipart/form-data", "application/xml", "text/xml", "text/xml; charset=utf-8", "text/plain", "application/octet-stream", "text/html", "application/jsonx",
 	"text/plain; a=/json", "application/vnd.api+json", "application/ld+json", "image/png", "application/x-json", "json", "application/yaml"}
 
